@@ -68,6 +68,44 @@ theorem exp_expiry_roundtrip (l : List Nat) :
 theorem exp_create_roundtrip (l : List Nat) (id : Nat) (h : id ∉ l) : delExp (putExp l id true) id = l := by
   simpa [putExp] using delExp_append_self h
 
+/-- **the revert guard mirrors the apply guard**: reverting a revision moves the expiration entry
+back exactly when applying it moved the entry — whenever the revised `WindowEnd` differs from the
+prior one, in *either* direction (a revision may pull the window in as well as push it out).
+Applying a window-changing revision takes the contract off the list of its prior window end and
+puts it on the list of the revised one; apply-then-revert has it on the prior list again and not
+on the revised one; a revision that keeps the window end touches neither list in either direction. -/
+theorem revision_revert_moves_back (e : Nat → List Nat) (d : Diff) (r : Nat × Nat)
+    (hk : d.kind = .fc) (hs : d.spent = false) (hr : d.rev = some r)
+    (hin : d.id ∈ e d.we) (hnd : (e d.we).Nodup) (hout : d.id ∉ e r.1) :
+    (r.1 ≠ d.we → d.id ∉ appExp e d d.we ∧ d.id ∈ appExp e d r.1) ∧
+    d.id ∈ revExp (appExp e d) d d.we ∧
+    (r.1 ≠ d.we → d.id ∉ revExp (appExp e d) d r.1) ∧
+    (r.1 = d.we → appExp e d = e ∧ revExp e d = e) := by
+  have hw : WFExp e d := by
+    intro _ _
+    refine ⟨fun h => ?_, fun _ _ _ _ => hin⟩
+    rw [hs] at h; exact absurd h (by decide)
+  have hp := revExp_appExp_perm e d hw
+  refine ⟨?_, (hp d.we).mem_iff.mpr hin, fun _ h => hout ((hp r.1).mem_iff.mp h), ?_⟩
+  · intro hne
+    rw [appExp_rev_move e d hk hs r hr hne]
+    have hne' : d.we ≠ r.1 := fun x => hne x.symm
+    constructor
+    · rw [set_other _ _ _ _ hne', set_same]
+      intro h
+      have hmem : d.id ∈ (e d.we).erase d.id := ((delExp_perm_erase _ _).mem_iff).mp h
+      exact absurd rfl (hnd.mem_erase_iff.mp hmem).1
+    · rw [set_same]; simp
+  · intro heq
+    exact ⟨appExp_rev_same e d hk hs r hr heq, revExp_rev_same e d hk hs r hr heq⟩
+
+/-- non-vacuity, with the window pulled *in*: contract 1 moves from height 9 to 6 and back -/
+example :
+    let e : Nat → List Nat := fun h => if h = 9 then [1, 2] else if h = 6 then [3] else []
+    let d : Diff := ⟨.fc, 1, false, false, 9, 0, some (6, 1)⟩
+    (appExp e d 9, appExp e d 6) = ([2], [3, 1]) ∧
+    (revExp (appExp e d) d 9, revExp (appExp e d) d 6) = ([1, 2], [3]) := by decide
+
 /-- **ExpStable**, defined semantically -/
 def ExpStable (s : Store) (ds : List Diff) : Prop :=
   (revertDiffs (applyDiffs s ds) ds.reverse).exp = s.exp
